@@ -17,7 +17,7 @@ RULE = (
 ASSUMPTIONS = [
     "CPython 3.12's match statement is the reference",
     "only the names captured by the selected case are compared afterwards (what a failed pattern leaves bound is not specified)",
-    "case-body wrappers (if True (do (E k) V) None), (try V (except [ValueError] 0)), (match 1 1 V) mean V (with effect k) - they are rendered as plain assignments on the Python side",
+    "case-body wrappers (if True (do (E k) V) None), (if False None (do (E k) V)), (try V (except [ValueError] 0)), (match 1 1 V), (match 1 1 <if wrapper> _ 0), (match 1 2 0 _ <try wrapper>), (match 1 1 (match 2 2 <if wrapper>)) mean V (with effect k) - they are rendered as plain assignments on the Python side",
 ]
 
 import dataclasses
@@ -219,12 +219,23 @@ def hy_body(i, c, names):
         return "(try %s (except [ValueError] 0))" % v
     if b == "nested":
         return "(match 1 1 %s)" % v
+    if b == "nested-ifdo":  # the inner case body has a temporary of its own
+        return "(match 1 1 (if True (do (E %d) %s) None) _ 0)" % (900 + i, v)
+    if b == "nested-try":
+        return "(match 1 2 0 _ (try %s (except [ValueError] 0)))" % v
+    if b == "nested2":
+        return "(match 1 1 (match 2 2 (if True (do (E %d) %s) None)))" % (900 + i, v)
+    if b == "ifdo-else":
+        return "(if False None (do (E %d) %s))" % (900 + i, v)
     return v
+
+
+EFFECT_BODIES = ("ifdo", "nested-ifdo", "nested2", "ifdo-else")
 
 
 def py_body(i, c, names):
     v = "[%s]" % ", ".join([str(i)] + names)
-    pre = "E(%d); " % (900 + i) if c.get("body") == "ifdo" else ""
+    pre = "E(%d); " % (900 + i) if c.get("body") in EFFECT_BODIES else ""
     return pre + "R = " + v
 
 
@@ -466,7 +477,8 @@ def strategies():
                 g = [draw(st.sampled_from(["plain", "stmt"])), gid, draw(st.sampled_from(["True", "False", "True"])), 500 + gid]
             if irrefutable(p) and g is None and i != n - 1 and draw(st.integers(0, 9)):
                 p = ["seq", "list", [p]]  # keep it refutable unless we want the (rare) illegal form
-            cases.append(dict(pat=p, guard=g, body=draw(st.sampled_from(["plain", "plain", "ifdo", "try", "nested"]))))
+            cases.append(dict(pat=p, guard=g, body=draw(st.sampled_from(["plain", "plain", "ifdo", "try", "nested", "plain", "plain", "ifdo", "try", "nested",
+                                                                   "nested-ifdo", "nested-try", "nested2", "ifdo-else"]))))
         # rare illegal mutations: duplicate capture, alternatives with different names
         m = draw(st.integers(0, 39))
         # (Hypothesis favours the ends of an integer range, so the rare branches sit in the middle of it)
